@@ -209,6 +209,13 @@ func (eb *EventBuilder) Build(
 	if eventJSON, err = json.Marshal(&eventStruct); err != nil {
 		return
 	}
+	// The proto-event's content and unsigned are raw JSON and go into the event
+	// as they are. An escape of half a surrogate pair in them has to be looked
+	// for here: the canonical form made below no longer has it.
+	if hasUnpairedSurrogateEscape(eventJSON) {
+		err = fmt.Errorf("EventBuilder.Build: event has an unpaired surrogate escape")
+		return
+	}
 
 	if eventFormat == EventFormatV2 {
 		if eventJSON, err = sjson.DeleteBytes(eventJSON, "event_id"); err != nil {
@@ -236,10 +243,6 @@ func (eb *EventBuilder) Build(
 	// raw JSON and go into the event as they are),
 	if !utf8.Valid(eventJSON) {
 		err = fmt.Errorf("EventBuilder.Build: event is not valid UTF-8")
-		return
-	}
-	if hasUnpairedSurrogateEscape(eventJSON) {
-		err = fmt.Errorf("EventBuilder.Build: event has an unpaired surrogate escape")
 		return
 	}
 	// ... nor one whose content is not an object, or whose signatures (the
